@@ -350,4 +350,135 @@ example : pack Gen.C16.retransmitLayout [0x80, 0xD5, 1, 65534, 4] = [0x80, 0xd5,
     controlReceived d11Backlog [0x80, 0xd5, 0, 1, 0xff, 0xfe, 0, 4] = some (retransmit d11Backlog 65534 4) := by
   decide
 
+/-! ### every stream of any sequence of streams on one StreamContext
+
+`session fpp cap x specs` is any number of consecutive `stream_file` calls on one shared
+context `x` (whatever state earlier streams, earlier retransmissions or anything else left
+it in).  Because `StreamContext.reset()` re-initialises rtpseq, start_ts, head_ts, latency
+and padding_sent, and the backlog / cipher counter belong to the per-stream client, each
+stream is exactly the run `packetize` describes for a brand-new context — so every
+theorem above holds for every stream of the sequence.  Only `sample_rate` (with
+channels / bytes_per_channel, credentials, ports, volume: not read by the loop) persists,
+and `initialize` overwrites it per stream. -/
+
+/-- After `reset()` the loop-relevant context is a function of the sample rate and the
+    two fresh values only: nothing else of the earlier state survives. -/
+theorem reset_forgets (x y : Ctx) (h : x.sampleRate = y.sampleRate) (rnd : Nat) (now : Int) :
+    x.reset rnd now = y.reset rnd now := by
+  unfold Ctx.reset; rw [h]
+
+/-- State after reset = fresh state: the loop starts from `initSt`, with the `Cfg` of a
+    brand-new context. -/
+theorem reset_fresh (x : Ctx) (fpp cap : Nat) (s : StreamSpec) :
+    (((x.withRate s.sampleRate).reset s.rnd s.now).cfgOf fpp s.frameSize s.ssrc s.wire = s.cfg fpp) ∧
+      ((x.withRate s.sampleRate).reset s.rnd s.now).stOf cap s.src = initSt (s.cfg fpp) cap s.src s.rnd :=
+  ⟨rfl, rfl⟩
+
+/-- One `stream_file` on ANY context is the `packetize` run of a brand-new one. -/
+theorem streamFile_eq_packetize (fpp cap : Nat) (x : Ctx) (s : StreamSpec) :
+    (streamFile fpp cap x s).1 = packetize (s.cfg fpp) cap s.src s.rnd s.comp := rfl
+
+/-- ... hence every stream of every session. -/
+theorem session_eq (fpp cap : Nat) (x : Ctx) (specs : List StreamSpec) :
+    session fpp cap x specs = specs.map (fun s => packetize (s.cfg fpp) cap s.src s.rnd s.comp) := by
+  induction specs generalizing x with
+  | nil => rfl
+  | cons s rest ih => rw [session, ih, streamFile_eq_packetize]; rfl
+
+theorem session_length (fpp cap : Nat) (x : Ctx) (specs : List StreamSpec) :
+    (session fpp cap x specs).length = specs.length := by
+  rw [session_eq, List.length_map]
+
+theorem session_getElem (fpp cap : Nat) (x : Ctx) (specs : List StreamSpec) (i : Nat)
+    (hi : i < (session fpp cap x specs).length) :
+    (session fpp cap x specs)[i] =
+      packetize ((specs[i]'(by rw [session_length] at hi; exact hi)).cfg fpp) cap
+        (specs[i]'(by rw [session_length] at hi; exact hi)).src
+        (specs[i]'(by rw [session_length] at hi; exact hi)).rnd
+        (specs[i]'(by rw [session_length] at hi; exact hi)).comp := by
+  simp [session_eq]
+
+theorem spec_latency_pos (s : StreamSpec) (fpp : Nat) : 0 < (s.cfg fpp).latency := by
+  unfold StreamSpec.cfg
+  have : 0 < Gen.C16.latencyBase := by decide
+  simp only; omega
+
+section
+variable {fpp cap : Nat} (x : Ctx) (specs : List StreamSpec)
+  (hv : ∀ s ∈ specs, Valid (s.cfg fpp) cap s.rnd)
+include hv
+
+/-- every run of the session is the `packetize` run of some valid stream. -/
+theorem session_mem (r : Run) (hr : r ∈ session fpp cap x specs) :
+    ∃ s ∈ specs, Valid (s.cfg fpp) cap s.rnd ∧ r = packetize (s.cfg fpp) cap s.src s.rnd s.comp := by
+  rw [session_eq] at hr
+  obtain ⟨s, hs, rfl⟩ := List.mem_map.mp hr
+  exact ⟨s, hs, hv s hs, rfl⟩
+
+/-- Every stream of the sequence runs to completion ... -/
+theorem session_finished (r : Run) (hr : r ∈ session fpp cap x specs) : r.status = .finished := by
+  obtain ⟨s, _, hvs, rfl⟩ := session_mem x specs hv r hr
+  exact packetize_finished hvs _ _
+
+/-- ... carries its own source exactly once, in order, followed by the zeros ... -/
+theorem session_payload_exact (r : Run) (hr : r ∈ session fpp cap x specs) :
+    ∃ s ∈ specs, (r.sent.map (·.pkt.payload)).flatten = s.src ++ List.replicate (zeros (s.cfg fpp) s.src.length) 0 ∧
+      r.sent.length = dataPackets (s.cfg fpp) s.src.length + padPackets (s.cfg fpp) := by
+  obtain ⟨s, hs, hvs, rfl⟩ := session_mem x specs hv r hr
+  exact ⟨s, hs, payload_exact hvs _ _ (spec_latency_pos s fpp), padding_count hvs _ _ (spec_latency_pos s fpp)⟩
+
+/-- ... with consecutive sequence numbers from its own start number, timestamps from its
+    own latency in steps of fpp, and the marker on its first packet only ... -/
+theorem session_headers (r : Run) (hr : r ∈ session fpp cap x specs) :
+    ∃ s ∈ specs, ∀ (i : Nat) (hi : i < r.sent.length),
+      (r.sent[i]).pkt.seq = (s.rnd + i) % 65536 ∧
+      (r.sent[i]).pkt.ts = ((Gen.C16.latencyBase + s.sampleRate : Nat) : Int) + (fpp : Int) * (i : Int) ∧
+      (r.sent[i]).pkt.marker = (i == 0) := by
+  obtain ⟨s, hs, hvs, rfl⟩ := session_mem x specs hv r hr
+  exact ⟨s, hs, fun i hi => ⟨seq_consecutive_mod hvs _ _ i hi, ts_step hvs _ _ i hi, marker_first_only hvs _ _ i hi⟩⟩
+
+/-- ... and its backlog holds its own most recent packets only (so `backlog_last_n`,
+    `retransmit_identical`, `retransmit_window` apply to it verbatim). -/
+theorem session_backlog (r : Run) (hr : r ∈ session fpp cap x specs) :
+    r.final.backlog.items = (lastN cap r.sent).map pair := by
+  obtain ⟨s, _, hvs, rfl⟩ := session_mem x specs hv r hr
+  exact backlog_final hvs _ _
+
+end
+
+/-- two streams of different formats on one context: the hypotheses are satisfiable -/
+def specA : StreamSpec :=
+  { sampleRate := 44100, frameSize := 4, ssrc := 7, wire := wireV1, src := [1, 2, 3, 4, 5], comp := [1, 0, 2],
+    rnd := 65535, now := 1000, rnd' := 17, now' := 2000 }
+def specB : StreamSpec :=
+  { sampleRate := 8000, frameSize := 1, ssrc := 9, wire := wireV1, src := [], comp := [], rnd := 65535, now := 3000,
+    rnd' := 4, now' := 4000 }
+
+theorem validAB : ∀ s ∈ [specA, specB], Valid (s.cfg 352) 1000 s.rnd := by
+  intro s hs
+  simp only [List.mem_cons, List.mem_nil_iff, or_false] at hs
+  rcases hs with rfl | rfl <;> exact ⟨by decide, by decide, by decide, by decide, by decide⟩
+
+example : ∀ r ∈ session 352 1000 Ctx.fresh [specA, specB], r.status = .finished :=
+  fun r hr => session_finished Ctx.fresh _ validAB r hr
+
+example : (session 352 1000 Ctx.fresh [specA, specB]).length = 2 := session_length _ _ _ _
+
+/-- Why `reset()` must zero `padding_sent` (the class of defect "state carried over from
+    the previous stream"): on a context that still says the latency is covered,
+    `_stream_data` sends nothing at all, whatever the source. -/
+theorem stale_padding_sends_nothing (fpp cap : Nat) (x : Ctx) (s : StreamSpec) (h : x.latency ≤ x.paddingSent) :
+    (streamOn fpp cap x s).sent = [] := by
+  unfold streamOn
+  have hstop : sendPacket (x.cfgOf fpp s.frameSize s.ssrc s.wire) (0 == 0) (x.stOf cap s.src) = .stop :=
+    (sendPacket_stop_iff _ _ _).mpr h
+  simp only [loop, hstop]
+
+/-- the state a completed default-format stream leaves behind (188 silent packets) -/
+def stAfterEx : St :=
+  { src := [], rtpseq := 5, headTs := 70000, paddingSent := 66176, backlog := Fifo.empty 1000, count := 188 }
+
+-- ... which satisfies the hypothesis: without the reset the next stream would be empty
+example : (Ctx.fresh.after stAfterEx).latency ≤ (Ctx.fresh.after stAfterEx).paddingSent := by decide
+
 end PyatvModel.Props.C16
